@@ -231,7 +231,9 @@ func (w *World) writerPaths(fn *ssa.Function) *writerInfo {
 							}
 							continue
 						}
-						if bset[sc] || reachesBoundary[sc] {
+						// (a method value called where it is made — `emit := e.writeBytes` — has the
+						// bound wrapper as its static callee: what counts is the method behind it)
+						if m := w.throughWrapper(sc); bset[sc] || reachesBoundary[sc] || bset[m] || reachesBoundary[m] {
 							return false
 						}
 						if w.inPkg(sc) && len(px.modFields(sc)) > 0 {
@@ -250,6 +252,13 @@ func (w *World) writerPaths(fn *ssa.Function) *writerInfo {
 			}
 			res := callee.Signature.Results()
 			if res.Len() == 0 || len(callee.Blocks) > 40 {
+				return false
+			}
+			// a text transformer `func(string) string` (the case helper of the field names,
+			// `lowerFirst(name) string` as `lowerName(name) (string, error)` before it) chooses
+			// no header form: it stays a recorded call, so that the rules can say which
+			// function produced a name and check that function on its own (casehelper.go)
+			if prm := callee.Signature.Params(); callee.Signature.Recv() == nil && prm.Len() == 1 && res.Len() == 1 && isStringType(prm.At(0).Type()) && isStringType(res.At(0).Type()) {
 				return false
 			}
 			for i := 0; i < res.Len(); i++ {
